@@ -83,6 +83,8 @@ pub struct ScriptBody {
     pub probe: BodyProbe,
     /// when set, the body never ends: after the script it stays Pending (declared-but-absent payloads)
     pub hang_at_end: bool,
+    /// when set, `size_hint()` is exact (a peer that announces its body size, e.g. content-length)
+    pub sized: bool,
 }
 impl ScriptBody {
     pub fn new(steps: Vec<BodyStep>) -> Self {
@@ -90,6 +92,7 @@ impl ScriptBody {
             steps: steps.into(),
             probe: BodyProbe::default(),
             hang_at_end: false,
+            sized: false,
         }
     }
 }
@@ -120,5 +123,12 @@ impl Body for ScriptBody {
             Some(BodyStep::Trailers(t)) => Poll::Ready(Some(Ok(Frame::trailers(t)))),
             Some(BodyStep::Err(s)) => Poll::Ready(Some(Err(s))),
         }
+    }
+    fn size_hint(&self) -> http_body::SizeHint {
+        if !self.sized {
+            return http_body::SizeHint::default();
+        }
+        let n: u64 = self.steps.iter().map(|s| if let BodyStep::Data(d) = s { d.len() as u64 } else { 0 }).sum();
+        http_body::SizeHint::with_exact(n)
     }
 }
